@@ -246,6 +246,21 @@ def stage_lr(work, tier, seed):
         text = G.render(g)
         for tt in tts:
             cid = "%s|%s" % (gid, tt)
+            # grammars with disambiguation meta-data also under the non-default shift preferences
+            if "meta" in tags and tt == "pager" and "+lay:" not in gid:
+                for tag2, extra in (("ps1", {"ps": True}), ("pse0", {"pse": False})):
+                    cid2 = "%s/%s|%s" % (gid, tag2, tt)
+                    rng2 = random.Random("%s-%d" % (cid2, seed))
+                    ins2 = []
+                    for k2, (toks, kind) in enumerate(gen_inputs(g, rng2, n_sent, n_mut // 2), 1):
+                        t_in, lex2 = G.render_input(g, toks, rng2)
+                        for partial in (False, True):
+                            ins2.append({"iid": k2, "text": t_in, "lex": lex2, "partial": partial,
+                                         "meta": {"kind": kind, "anylex": False}})
+                        inputs["%s#%d" % (cid2, k2)] = [t_in, lex2]
+                    gtext[cid2] = text
+                    cases.append({"id": cid2, "grammar": text, "cfg": dict({"algo": "lr", "tt": tt}, **extra),
+                                  "meta": {"nodis": False, "plain": False}, "inputs": ins2})
             nod = tab["nodis"].get("%s|%s" % (base, tt))
             if nod is None:
                 continue  # grammar rejected by the compiler
